@@ -111,6 +111,7 @@ def prop(case):
         empty_used |= any((not t) or any(v is None for v in t) for t in vals)
     used_pairs = set()
     nic = 0
+    port_ic = False
     for sel, _, vals, blk in case['ic']:
         inst, pin, src = pins[sel % len(pins)]
         if src[0] == 'n' or (src, inst['name'], pin) in used_pairs:
@@ -138,6 +139,37 @@ def prop(case):
             blocks.append((None, 'top', []))
         blocks[bindex[key]][2].append(entry)
         nic += 1
+    # interconnects that end at an output port
+    for sel, psel, vals, blk in case['ic']:
+        if psel % 3 or not nl['po']:
+            continue
+        k = sel % len(nl['po'])
+        src = nl['po'][k]
+        drv = next((i for i in insts if src in i['outs'].values()), None)
+        if src[0] != 'i' and drv is None:
+            continue                                  # constant output written as a literal
+        bound = k in truth['bound_po']
+        if bound and len(rd.get(src, [])) != 1:
+            continue                                  # port shares the signal fork with other readers: no line of its own
+        if ('po', k) in used_pairs:
+            continue
+        used_pairs.add(('po', k))
+        pname = truth['po'][k]
+        if pname not in c.forks or not c.forks[pname].ins:
+            raise Violation(f'fork of output port {pname} missing or undriven')
+        line = c.forks[pname].ins[0]
+        orig = truth['net'][src] if src[0] == 'i' else f'{sdf_name(drv["name"])}/{next(p for p, s_ in drv["outs"].items() if s_ == src)}'
+        texts, nums = zip(*[triple_text(t, sel + j) for j, t in enumerate(vals)])
+        if len(nums) == 1:
+            nums = (nums[0], nums[0])
+        entry = (f'(INTERCONNECT {sdf_name(orig)} {sdf_name(pname)} {" ".join(texts)})', 'ic', line.index, [0, 1], nums)
+        key = (None, blk)
+        if key not in bindex:
+            bindex[key] = len(blocks)
+            blocks.append((None, 'top', []))
+        blocks[bindex[key]][2].append(entry)
+        nic += 1
+        port_ic = True
     # ---- text ----------------------------------------------------------------------------------------
     r = case['hdr']
     hdr = ['(SDFVERSION "OVI 2.1")', '(DESIGN "top")', '(DATE "Wed May 31 14:46:06 2017")', '(VENDOR "lib_max")', '(PROGRAM "tool cmos-annotated")',
@@ -187,6 +219,7 @@ def prop(case):
                             f'{got_ic[tuple(bad)]}, SDF file says {exp_ic[tuple(bad)]}' if bad is not None else f'shape {got_ic.shape} vs {exp_ic.shape}')
                             + f' (branchforks={bf})\n{stext}')
         labels.append('interconnects')
+        if port_ic: labels.append('interconnect_to_output_port')
     per_inst = {}
     for (iname, blk) in bindex:
         per_inst[iname] = per_inst.get(iname, 0) + 1
